@@ -363,11 +363,13 @@ from .stream import StreamInteractions          # noqa: E402
 class InterEventTimes(Contract):
     props = ('C17',)
 
-    def __init__(self, cls, bound_n=None):
-        self.cls = cls
+    def __init__(self, cls, fname='inter_event_time_distribution', bound_n=None):
+        self.cls, self.fname = cls, fname
         self.directed = cls == 'DynDiGraph'
         self.mod = 'dyndigraph' if self.directed else 'dyngraph'
-        self.key = '%s::%s.inter_event_time_distribution' % (self.mod, cls)
+        self.key = '%s::%s.%s' % (self.mod, cls, fname)
+        # which events count for a node u: any endpoint / the target (in-events) / the source (out-events)
+        self.match = {'inter_event_time_distribution': 'any', 'inter_in_event_time_distribution': 'in', 'inter_out_event_time_distribution': 'out'}[fname]
 
     def variants(self):
         return [{'u': 'none'}, {'u': 'node'}]
@@ -458,7 +460,7 @@ class InterEventTimes(Contract):
             it = L.iterable
             tm, key = it.meta['time'], it.meta['key']
             k = L.k
-            match = z3.Or(ea(key(k)) == c.u, eb(key(k)) == c.u)
+            match = {'any': z3.Or(ea(key(k)) == c.u, eb(key(k)) == c.u), 'in': eb(key(k)) == c.u, 'out': ea(key(k)) == c.u}[self.match]
             return [c.cnt(k + 1) == c.cnt(k) + z3.If(match, 1, 0),
                     c.last(k + 1) == z3.If(match, tm(k), c.last(k)),
                     c.first(k + 1) == z3.If(z3.And(match, c.cnt(k) == 0), tm(k), c.first(k))]
@@ -489,14 +491,16 @@ class InterEventTimes(Contract):
             ctx.oblige('C17.inter_event.modifies_nothing.%s' % comp, f, tags=T)
 
 
-def run_iet_case(cls, history, u):
-    """the real inter_event_time_distribution(u) against total mass / weighted sum computed from the real stream; {clause: detail}"""
+def run_iet_case(cls, history, u, fname='inter_event_time_distribution'):
+    """the real inter_event_time_distribution(u) (or its in / out form) against total mass / weighted sum computed from the real stream; {clause: detail}"""
     from bounded.core import run_history
     history = [tuple(tuple(y) if isinstance(y, list) else y for y in c) for c in history]
     G, M, outs = run_history(cls, True, history, probing=False)
-    ev = [e for e in G.stream_interactions() if u is None or e[0] == u or e[1] == u]
+    sel = {'inter_event_time_distribution': lambda e: e[0] == u or e[1] == u, 'inter_in_event_time_distribution': lambda e: e[1] == u,
+           'inter_out_event_time_distribution': lambda e: e[0] == u}[fname]
+    ev = [e for e in G.stream_interactions() if u is None or sel(e)]
     try:
-        d = G.inter_event_time_distribution() if u is None else G.inter_event_time_distribution(u)
+        d = getattr(G, fname)() if u is None else getattr(G, fname)(u)
     except Exception as ex:
         return {'C17.inter_event.no_exception.%s' % type(ex).__name__: repr(ex)}
     mass, wsum = sum(d.values()), sum(k * v for k, v in d.items())
@@ -520,10 +524,10 @@ def _search_iet(self, engine):
         if any(o[0] != o[1] for o in outs) or not M.keys():
             continue
         for u in [None] + list(G.nodes())[:3]:
-            v = run_iet_case(cls, h, u)
+            v = run_iet_case(cls, h, u, self.fname)
             if v:
                 return {'violated': v, 'call': '%s.inter_event_time_distribution(%s) after %r' % (cls, '' if u is None else repr(u), h),
-                        'replayer': {'module': 'contracts.stats', 'function': 'run_iet_case', 'args': [cls, jsonable(h), u]}}
+                        'replayer': {'module': 'contracts.stats', 'function': 'run_iet_case', 'args': [cls, jsonable(h), u, self.fname]}}
     return None
 
 
